@@ -61,9 +61,9 @@ BOTH = ('"end"', '"start"')
 # name -> dict(cfg=kwargs for cgt_cfg, variants=harness rendering set, bases=number of base dates, obs=observation pass)
 FAMILIES = {
     # one security, five day slots around the 30/31-day edge, every cell 0..2: 59,049 ledgers
-    'core_q': dict(cfg=dict(dayset=1), variants='none', bases=2, cli_every=97),
+    'core_q': dict(cfg=dict(dayset=1), variants='none', bases=2, cli_every=97, micro=True),
     # fractional quantities (halves) on the short window 0,1,31,32
-    'frac_q': dict(cfg=dict(dayset=3, buy=(0, 1, 3), sell=(0, 1, 3), qden=2), variants='none', bases=1),
+    'frac_q': dict(cfg=dict(dayset=3, buy=(0, 1, 3), sell=(0, 1, 3), qden=2), variants='none', bases=1, micro=True),
     # splits / unsplits at every position: one split cell, ratios 2, 3, 1/2, 3/2
     'split_q': dict(cfg=dict(dayset=3, splits=(1, 2, 3, 4), maxsplits=1, timings=BOTH), variants='orders', bases=1),
     # eight slots, at most 5 non-empty cells, quantities 0..3
@@ -170,6 +170,8 @@ def cgt_family(name, seed=1):
     wd = workdir('cgt_' + name)
     out = os.path.join(wd, 'findings.ndjson')
     args = ['--in', m['out'], '--out', out, '--bases', str(fam.get('bases', 1)), '--variants', fam.get('variants', 'none')]
+    if fam.get('micro'):
+        args += ['--micro']
     if fam.get('cli_every'):
         common.build_cli()
         args += ['--cli', common.CGT_TOOL, '--cli-every', str(fam['cli_every'])]
